@@ -1,4 +1,4 @@
-import QtVerif.Proofs.SlaveProvision
+import QtVerif.Proofs.SlaveNodup
 /-!
 C13 — Changes made while a slave is offline are pushed once it is back online.
 
@@ -125,6 +125,49 @@ theorem offline_value_pushed_with_user_value (rf : List Nat) (m : Master) (hoff 
   rw [findPort_some_id hp2, hv2 v hv1] at h
   exact h.1
 
+/-- The registry's port ids stay duplicate-free along every such history (events, ticks; C12's `nodup_stepEvent`),
+so the `Nodup` hypothesis above is an invariant and not an assumption about the reconnect state. -/
+theorem registry_ids_stay_distinct (fix : Fix) (m : Master) (incs : List Inc) (h : (m.ports.map (·.id)).Nodup) :
+    ((runInc fix m incs).ports.map (·.id)).Nodup :=
+  nodup_runInc fix incs m h
+
+/-- **End to end, from the state before the edit.** Only the registry BEFORE the offline write has to have distinct
+port ids (true of every registry built from the empty hub by additions, fetches and events): a value written while
+offline, then anything the slave reports and any ticks, then the reconnect — the slave receives exactly one value
+request for that port, carrying the value the user set. -/
+theorem offline_value_pushed_end_to_end (rf : List Nat) (m : Master) (hoff : m.online = false)
+    (hnd : (m.ports.map (·.id)).Nodup) (id : Nat) (v : Int) (ok : Bool) (p : MPort)
+    (hp : findPort m.ports id = some p) (hq : p.rq = []) (incs : List Inc)
+    (hnr : Inc.ev (.portRemove id) ∉ incs) (d : Attrs) (ps : List PortMsg) :
+    (handleOnline Fix.repaired rf (runInc Fix.repaired (editValue m id v ok).1 incs) (some d) (some ps)).1.filter
+      (Req.isValuePushFor id) = [Req.patchValue id (some v)] :=
+  offline_value_pushed_with_user_value rf m hoff id v ok p hp hq incs hnr d ps
+    (nodup_runInc _ incs _ (nodup_editValue m hoff id v ok hnd))
+
+/-- The same for a port ATTRIBUTE: edited while offline, kept across everything the slave reports, then pushed in
+exactly one `PATCH /ports/<id>` that carries the user's value for that attribute. -/
+theorem offline_attr_pushed_end_to_end (rf : List Nat) (m : Master) (hoff : m.online = false)
+    (hnd : (m.ports.map (·.id)).Nodup) (id n : Nat) (v : Int) (p : MPort)
+    (hp : findPort m.ports id = some p) (incs : List Inc)
+    (hnr : Inc.ev (.portRemove id) ∉ incs) (d : Attrs) (ps : List PortMsg) :
+    ∃ body, (handleOnline Fix.repaired rf (runInc Fix.repaired (editAttr m id n v).1 incs) (some d) (some ps)).1.filter
+      (Req.isAttrPushFor id) = [Req.patchPort id body] ∧ (n, v) ∈ body := by
+  obtain ⟨_, p1, hp1, _, hv1⟩ := offline_attr_edit_pending m hoff id n v p hp
+  obtain ⟨p2, hp2, k1, _, _, k4, _⟩ := runInc_port_kept true id incs (editAttr m id n v).1 p1 hp1 hnr
+  have hmem : (n, v) ∈ p2.pendAttrs := by
+    obtain ⟨hn, hv⟩ := mem_pendAttrs.mp hv1
+    exact mem_pendAttrs.mpr ⟨by rw [k1]; exact hn, k4 n hn v hv⟩
+  have hnd2 := nodup_runInc Fix.repaired incs _ (nodup_editAttr m hoff id n v hnd)
+  have h := ((pushed_exactly_once_before_refresh rf _ d ps hnd2).choose_spec.choose_spec.2.2.2.2.1 p2
+    (findPort_mem_p hp2)).2
+  rw [findPort_some_id hp2] at h
+  have hne : p2.pendAttrs.isEmpty = false := by
+    cases hh : p2.pendAttrs with
+    | nil => rw [hh] at hmem; cases hmem
+    | cons _ _ => rfl
+  rw [hne] at h
+  exact ⟨p2.pendAttrs, h, hmem⟩
+
 /-! ### 3. Afterwards nothing is reported as pending -/
 
 /-- **Nothing pending afterwards**, in both modes, whatever the refresh fetches answered (even if they failed) and
@@ -182,6 +225,7 @@ example :
       [.patchPort 1 [(3, 9)], .patchValue 1 (some 42), .getDevice, .getPorts] := by decide
 
 example : ((runInc Fix.repaired (editValue wMaster 1 42 true).1 [.tick]).ports.map (·.id)).Nodup := by decide
+example : (wMaster.ports.map (·.id)).Nodup ∧ ((Master.init .listen).ports.map (·.id)).Nodup := by decide
 
 example : DevReports (editDev wMaster 1 6).1.devProv [.ev (.deviceUpdate [(1, 5), (2, 8)]), .tick] := by
   intro a ha n hn
